@@ -316,6 +316,14 @@ func (c *Ctx) Report(key, what string, rp Replay) {
 func Hex(b []byte) string { return hex.EncodeToString(b) }
 
 // Short renders bytes for messages.
+// ShortStr clips a string for messages.
+func ShortStr(s string) string {
+	if len(s) > 300 {
+		return s[:300] + "..."
+	}
+	return s
+}
+
 func Short(b []byte) string {
 	if len(b) <= 64 {
 		return hex.EncodeToString(b)
